@@ -55,15 +55,25 @@ class Ctx:
         self.strata = {}
         self.inconclusive_reasons = []
         self.cut_short = False
+        self.soft = None
 
     # -- budget ----------------------------------------------------------
     def expired(self):
         """True once the shard's wall budget is used up.  Stopping early is
         recorded (strata lose their `exhaustive` flag); it is never a verdict."""
-        if time.time() - self.t0 > self.wall:
+        limit = self.wall if self.soft is None else min(self.wall, self.soft)
+        if time.time() - self.t0 > limit:
             self.cut_short = True
             return True
         return False
+
+    def reserve(self, fraction):
+        """Until the next reserve()/release(): `expired()` fires once `fraction` of the wall budget is used, so that on a
+        loaded machine the strata that come later keep their share instead of being starved by the first one."""
+        self.soft = self.wall * fraction
+
+    def release(self):
+        self.soft = None
 
     def mine(self, index):
         """Deterministic partition of an enumerated space over the shards."""
